@@ -297,11 +297,18 @@ where
                 .await?;
         }
 
+        // Raft §5.3: commitIndex = min(leaderCommit, index of last new entry). Only the
+        // range this request covers (prev_log_index + entries) is known to match the leader;
+        // anything beyond it may be a stale tail left by a deposed leader and must not be
+        // marked committed. The commit index never moves backwards.
+        let last_covered = request.prev_log_index.saturating_add(request.entries.len() as u64);
         if let Some(new_commit_index) = Self::if_update_commit_index_as_follower(
             state_snapshot.commit_index,
-            raft_log.last_entry_id(),
+            cmp::min(raft_log.last_entry_id(), last_covered),
             request.leader_commit_index,
-        ) {
+        )
+        .filter(|c| *c > state_snapshot.commit_index)
+        {
             debug!("new commit index received: {:?}", new_commit_index);
             commit_index_update = Some(new_commit_index);
         }
